@@ -223,6 +223,14 @@ class Target:
 
 
 TRANSPARENT_DECORATORS = {
+    # generator-based context managers: the body runs at `with` entry / exit; treating the decorator as transparent
+    # attributes everything the body can raise (and every effect it has) to the `with` item that calls it
+    "contextmanager",
+    "asynccontextmanager",
+    "contextlib.contextmanager",
+    "contextlib.asynccontextmanager",
+    "lru_cache",
+    "functools.lru_cache",
     "classmethod",
     "staticmethod",
     "abstractmethod",
